@@ -79,6 +79,11 @@ def throughs():
         "amb": lambda o: o.pipe(ops.amb(rx.never())),
         "with_latest_from": lambda o: o.pipe(ops.with_latest_from(rx.of(0)), ops.map(lambda t: t[0])),
         "combine_latest": lambda o: rx.of(0).pipe(ops.concat(rx.never()), ops.combine_latest(o), ops.map(lambda t: t[1])),
+        # the never-ending source is cancelled BEFORE its first step (between its subscription and the moment its scheduled work would start):
+        # it loses a merge against a finite sequence that ends the pipeline, it is the loser of amb, it is replaced by switch_map before it ran
+        "merge_loser": lambda o: rx.merge(rx.of(1, 2, 3), o),
+        "amb_loser": lambda o: rx.of(1, 2, 3).pipe(ops.concat(rx.never()), ops.amb(o)),
+        "switch_map_replaced": lambda o: rx.of(0, 1, 2).pipe(ops.concat(rx.never()), ops.switch_map(lambda _: o)),
     }
 
 
